@@ -22,7 +22,8 @@ import (
 
 func init() { Registry["C01"] = runC01 }
 
-const c01MaxLen = 6
+// chain length explored: 6 in the quick tier, 9 in the thorough tier (set in runC01)
+var c01MaxLen = 6
 
 type c01Case struct {
 	HeadIdx   int    // index of the requested head in the chain (chain length L = HeadIdx+1 as far as the sync can see)
@@ -41,7 +42,7 @@ type c01Case struct {
 }
 
 func (k c01Case) String() string {
-	return fmt.Sprintf("head=%d queried=%v stop=%s@%d resync=%v ads=%d first=%d scoped=%d segsub=%d segscoped=%d pre=%06b strict=%v mount=%s",
+	return fmt.Sprintf("head=%d queried=%v stop=%s@%d resync=%v ads=%d first=%d scoped=%d segsub=%d segscoped=%d pre=%09b strict=%v mount=%s",
 		k.HeadIdx, k.Queried, k.StopKind, k.StopIdx, k.Resync, k.AdsDepth, k.FirstSync, k.Scoped, k.SegSub, k.SegScoped, k.Pre, k.Strict, k.Mount)
 }
 
@@ -335,6 +336,9 @@ func (e *c01Env) run(k c01Case) c01Outcome {
 }
 
 func runC01(c *vf.Ctx) {
+	if c.Thorough() {
+		c01MaxLen = 9
+	}
 	c01Ads(c)
 	c01Entries(c)
 }
@@ -495,7 +499,7 @@ type c01EntCase struct {
 }
 
 func (k c01EntCase) String() string {
-	return fmt.Sprintf("%s L=%d head=%d entdepth=%d scoped=%d segsub=%d pre=%06b", k.Kind, k.L, k.HeadIdx, k.EntDepth, k.Scoped, k.SegSub, k.Pre)
+	return fmt.Sprintf("%s L=%d head=%d entdepth=%d scoped=%d segsub=%d pre=%09b", k.Kind, k.L, k.HeadIdx, k.EntDepth, k.Scoped, k.SegSub, k.Pre)
 }
 
 func chunkNextHook(dst *Store, log *hookLog) dagsync.BlockHookFunc {
